@@ -6,7 +6,8 @@ A  proof step: Rpft.Props.C05 (render_load…, render_load_idem…, legacy_trigg
 B  tie: Lean model `doc.roundtrip` vs `RapidProContainer.from_dict(d).render()` on every
    generated document and on every fixture (exact JSON equality), codec self-test.
 C  direct oracle on the real code: output ≈ input under the smallest relation (written
-   independently in harness/gen/c05doc.py), second round trip EQUAL to the first, input
+   independently in harness/gen/c05doc.py; `_ui.nodes` entries field for field incl. type and
+   config.operand), second round trip EQUAL to the first, input
    object untouched (deep snapshot + identity of nested containers), output
    JSON-serialisable, legacy triggers carry both keyword forms.
 """
@@ -24,7 +25,7 @@ from ..gen import c05doc as G
 MANIFEST = dict(
     text="Proof: Lean theorems over a hand model (Rpft.Document) of from_dict/render of the whole export schema (flows, all node/router/action kinds incl. pass-through, _ui positions, groups, campaigns, triggers): render_load (load and render succeed and render(load d) ≈ d, ≈ defined as equality of explicit normal forms, for every valid document in re-join order), roundtrip_unordered (for ANY category/exit order the output is exactly shapeDoc(reorderDoc d)), render_load_idem (the second round trip EQUALS the first, without ordering hypotheses), legacy_trigger / legacy_trigger_doc (both keyword forms, no validity hypothesis), kernel-checked negative witnesses for the four hypotheses the code forces; tied to the code by exact comparison of the model's output with RapidProContainer.from_dict(d).render() on type-directed generated documents, a near-valid quirk stream, every fixture JSON and the Lean witnesses, and by tables regenerated from actions.py / routers.py / common.py on every run; the statement itself (≈ written independently in Python, second trip equal, input untouched incl. identity of nested containers, JSON-serialisable, both keyword forms) is evaluated on the real code for every case.",
     ref="§5 C05",
-    note="Trusts: Lean kernel (axioms audited each run), differential harness, generator and Driver JSON codec (self-tested: decode∘encode = id on every generated document), CPython dict order/deepcopy. Pass-through JSON is opaque canonical text in the model; _ui is modelled on node positions only (type/config of the rendered _ui are not modelled); uuid invention and contact-field key derivation are outside the model (model declines, counted). Idempotence is proved on Valid ∧ CatsWired ∧ UntypedFields documents (C05_idem_full, the unconditional statement, is kept visible and is only tested). Open findings (F-C05-a, typed contact field rendering the builtin `type`, was fixed in /repo) F-C05-b (top-level group attributes dropped), F-C05-c (default category not last → reorder), F-C05-d (exits re-emitted in category order) are exercised in a deterministic stream; the main generator avoids their triggers.",
+    note="Trusts: Lean kernel (axioms audited each run), differential harness, generator and Driver JSON codec (self-tested: decode∘encode = id on every generated document), CPython dict order/deepcopy. Pass-through JSON is opaque canonical text in the model; _ui: the model keeps the node positions of the input and derives type/config of every rendered entry from the node (Rpft.DocumentUi: render_ui of the six node classes, operand derivation character by character; tied on every case, instances kernel-checked in ui_operand_whole_path; not part of the ≈ of the Lean theorems); uuid invention and contact-field key derivation are outside the model (model declines, counted). Idempotence is proved on Valid ∧ CatsWired ∧ UntypedFields documents (C05_idem_full, the unconditional statement, is kept visible and is only tested). Open findings (F-C05-a, typed contact field rendering the builtin `type`, was fixed in /repo) F-C05-b (top-level group attributes dropped), F-C05-c (default category not last → reorder), F-C05-d (exits re-emitted in category order) are exercised in a deterministic stream; the main generator avoids their triggers.",
     technique="Lean 4 proof (explicit images of load, association-list invariants for the uuid dictionaries, reordering argument for the category re-join) + model/code differential run + direct oracle",
 )
 
@@ -426,7 +427,7 @@ def case_worker(items):
 
 
 def ui_reduce(doc):
-    """`_ui` reduced to node positions (what the model keeps of it)"""
+    """`_ui` reduced to node positions (what the model keeps of the INPUT's `_ui`: codec self-test)"""
     doc = dict(doc)
     flows = []
     for f in doc.get("flows", []):
@@ -480,7 +481,9 @@ def run(ck: core.Check):
     ck.lean = core.lean_step("C05", thorough=(ck.tier == "thorough"))
     ck.rule = (
         "documents are generated type-directed from the export schema (every optional key absent / empty / present, "
-        "all 23 action types incl. unknown extra keys on pass-through ones, 0..5 nodes of every node kind, categories shared by "
+        "all 23 action types incl. unknown extra keys on pass-through ones, 0..5 nodes of every node kind, switch operands with 0 / 1 / 2+ dotted "
+        "path segments in the namespaces contact / fields / results and in look-alike namespaces, urn-scheme operands and other expressions, `_ui` entries of every "
+        "type the editor writes (with the whole operand path in config.operand) on some nodes and no entry on others, categories shared by "
         "several cases, permuted category order, group references with attributes, campaigns with both event kinds, triggers "
         "K/C/M/T in new and legacy form, renamed objects: references to ONE flow uuid under its current and older names in "
         "enter_flow actions / campaign events / triggers, one group uuid listed and referred to under two names) plus every fixture JSON embedded in a full export; a case is non-trivial when the "
@@ -492,7 +495,7 @@ def run(ck: core.Check):
     ]
     ck.partial_gap = [
         "render_load_idem is proved for Valid ∧ CatsWired ∧ UntypedFields documents; the unconditional C05_idem_full (e.g. categories sharing an exit, timeout of 0 s) is only tested (oracle C on every case, tie on the quirk stream)",
-        "_ui: only node positions are modelled; `type`/`config` written by render_ui are outside the model and outside ≈",
+        "_ui: the Lean ≈ (render_load) compares node positions only; `type`/`config` written by render_ui are modelled (Rpft.DocumentUi.nodeUi, tied on every case) and compared field for field by oracle C when the input entry is the editor's entry for its node (the generator's own statement of the format), by position only otherwise (counted); a result/field whose display name differs from its key (`name` ≠ `id` in config.operand) is such an entry: the code cannot know the name (nodes.py TODO)",
         "uuid invention (missing/empty uuids) and generate_field_key are outside the model: the model answers freshUuid/unsupported and those cases are compared by oracle C only",
         "Valid requires every referenced group to be listed at top level and flow references to agree: documents outside are exercised by the quirk stream (tie) only",
     ]
